@@ -58,7 +58,9 @@ def cases(rng, tier):
     cs += valid
     for c in list(valid):
         src = bytes.fromhex(c["line"].split(" ")[1]).decode()
-        if len(src) > 3000:
+        if len(src) > 3000 or "deep-args" in c.get("tags", []):
+            # (a call nested hundreds deep with its closing parentheses cut off is the listed finding D29 — exponential
+            # backtracking of the parser — and is kept out of the random stream; its witness is in the corpus)
             continue
         for _ in range(2):
             m = mutate(rng, src)
@@ -98,6 +100,13 @@ def cases(rng, tier):
                 'push1 selector(1)', 'push1 topic()', 'push1 selector()', '%push(selector("f()"), 1)', '%push(1,)', '%push(,1)',
                 '%import("a" "b")', '%m(1,,2)', '%m(', '%push(1', '%def f(\n1\n%end', '%macro m(a,)\n%end', '%macro m(a a)\n%end']:
         cs.append({"line": "asm " + C.txt(src), "tags": ["builtin-args"], "src": src})
+    # mnemonics next to the opcode table: names of unassigned / assigned bytes, upper case, out-of-range push / dup / swap / log
+    for src in ["invalid", "invalid_0c", "invalid_0C", "invalid_01", "invalid_60", "invalid_fe", "invalid_ff", "invalid_EF", "invalid_", "invalid_0",
+                "invalid_000", "INVALID", "Stop", "push0", "push33", "push1", "push", "dup0", "dup17", "swap0", "swap17", "log5", "log", "jumpdestx",
+                "selfdestruct", "mcopy", "tload", "blobhash", "pc pc", "push1 1 2"]:
+        for wrap in ("{}", "%macro m()\n{}\n%end\n%m()"):
+            t = wrap.format(src)
+            cs.append({"line": "asm " + C.txt(t), "tags": ["mnemonics"], "src": t})
     # for this property bounded time IS the observable: a request that exceeds the wall-clock limit is a failure
     for c in cs:
         c["time_observable"] = True
